@@ -108,6 +108,7 @@ def run_history(hist, acc):
     model = {}            # pid -> (object, inc) as the statement's cache
     ever = {}             # pid -> list of objects ever yielded
     flagged = set()       # pids flagged recycled by is_running() since the last iteration
+    obj_inc = {}          # id(object) -> (object, incarnation it was created for)
     said_false = set()    # objects whose is_running() already answered False (later answers find nothing new)
     must_be_fresh = {}    # pid -> objects that must NOT be yielded again (flagged reuse / cache_clear)
 
@@ -231,7 +232,10 @@ def run_history(hist, acc):
                         nontrivial = True
                 for p in got:
                     pid = p.pid
-                    ever.setdefault(pid, set()).add(listed_inc.get(pid, w.cur_inc(pid)))
+                    if id(p) not in obj_inc:
+                        obj_inc[id(p)] = (p, listed_inc.get(pid, w.cur_inc(pid)))
+                    true_inc = obj_inc[id(p)][1]
+                    ever.setdefault(pid, set()).add(true_inc)
                     acc.count("identity_assertions")
                     if attrs is not None:
                         want_keys = set(attrs) if attrs else None
@@ -243,20 +247,20 @@ def run_history(hist, acc):
                         if pid in model and p is model[pid][0]:
                             viols.append(("flagged_reuse_not_refreshed", ctx + f" op#{idx} pid={pid}"))
                         flagged.discard(pid)
-                        model[pid] = (p, listed_inc.get(pid, w.cur_inc(pid)))
+                        model[pid] = (p, true_inc)
                     elif pid in model and model[pid][1] != listed_inc.get(pid):
                         # stale entry (pid re-used between two iterations, nobody asked is_running()): the cache may
                         # or may not have found out by itself; either object is acceptable
-                        model[pid] = (p, listed_inc.get(pid)) if p is not model[pid][0] else model[pid]
+                        model[pid] = (p, true_inc)
                     elif pid in model:
                         if p is not model[pid][0]:
                             viols.append(("identity_not_preserved", ctx + f" op#{idx} pid={pid}"))
-                            model[pid] = (p, listed_inc.get(pid))
+                            model[pid] = (p, true_inc)
                     else:
                         for old in must_be_fresh.get(pid, []):
                             if p is old:
                                 viols.append(("stale_object_after_cache_clear", ctx + f" op#{idx} pid={pid}"))
-                        model[pid] = (p, listed_inc.get(pid, w.cur_inc(pid)))
+                        model[pid] = (p, true_inc)
                     must_be_fresh.pop(pid, None)
                 if stop_after is not None:
                     # unvisited entries: cache state is not specified by the statement -> forget them in the model
